@@ -77,7 +77,7 @@ func c10Child(tier string, seed int64) {
 	quick := tier != "thorough"
 	rounds := 18
 	if !quick {
-		rounds = 120
+		rounds = 72
 	}
 	var profiles, docs []string
 	wp, wg := c10WideProfile()
